@@ -98,6 +98,43 @@ class Census:
         self.sites.append(dict(fn=fn, mir=p, kind=kind, what=what, macros=node["macros"], line=node["line"], file=node["file"], ord=counts[key], operands=operands))
 
 
+FINITE_SOURCES = re.compile(
+    r"^(std|core|alloc)::(vec::(Vec|IntoIter|Drain)|slice::(Iter|IterMut|Chunks|Windows)|str::(Chars|CharIndices|Bytes|Lines|SplitWhitespace|Split|SplitN)|"
+    r"collections::(hash|btree)_(map|set)::\w+|collections::\w+::\w+|option::(IntoIter|Iter|IterMut|Option)|ops::(Range|RangeInclusive)|array::IntoIter|string::String)$"
+)
+FINITE_ADAPTORS = {"Enumerate", "Map", "Rev", "Filter", "FilterMap", "Copied", "Cloned", "Peekable", "Skip", "Take", "StepBy", "Inspect", "TakeWhile", "SkipWhile", "MapWhile", "Fuse"}
+
+
+def _split_head(ty):
+    ty = ty.strip()
+    while ty.startswith("&"):
+        ty = re.sub(r"^&\s*('\{?\w+\}?\s*)?(mut\s+)?", "", ty)
+    if "<" in ty:
+        i = ty.index("<")
+        return ty[:i], F.split_generics(ty[i + 1 : -1])
+    return ty, []
+
+
+def finite_iterable(ty):
+    head, args = _split_head(ty)
+    if head.startswith("["):
+        return True  # slice or array
+    m = re.match(r"^(std|core)::iter::(\w+)$", head)
+    if m:
+        if m.group(2) in FINITE_ADAPTORS:
+            return bool(args) and finite_iterable(args[0])
+        if m.group(2) == "Zip":
+            return len(args) == 2 and (finite_iterable(args[0]) or finite_iterable(args[1]))
+        if m.group(2) == "Chain":
+            return len(args) == 2 and finite_iterable(args[0]) and finite_iterable(args[1])
+        return False
+    return bool(FINITE_SOURCES.match(head))
+
+
+def short_ty(ty):
+    return re.sub(r"(std|core|alloc)::(\w+::)*", "", ty)[:80]
+
+
 def run(c, facts, tier):
     b = peg.Builder(facts)
     g = peg.Grammar(b)
@@ -140,7 +177,7 @@ def run(c, facts, tier):
     c.analysed["panic_capable_sites"] = total
     c.floor("panic-capable sites in the census", total, 40)
     # ------------------------------------------------------------ progress / termination
-    progress(c, facts, b, g)
+    progress(c, facts, b, g, m_on)
     linear_time(c, facts, b, g, an)
     termination(c, facts, m_on)
     # error rendering: Display impls come from thiserror templates; no hand-written Display for the error types
@@ -416,15 +453,25 @@ class Discharger:
             for n in find_all(fn.body, lambda n: n.get("k") == "path" and len(n["segs"]) >= 2 and n["segs"][-1] == "Global" and n["segs"][-2] in ("Exp", "Expression"), skip_pats=True):
                 sites.append(fn.key)
         infn = self.f.fn(self.an.role("parse_inner"))
+        from . import c06
+
+        S = c06.inner_summary(self.b, infn)
+        lexk, entryk = self.an.role("lex"), self.an.role("prec_entry")
         mapped = False
-        for mt in find_all(infn.body, lambda n: n.get("k") == "match"):
-            for arm in mt["arms"]:
-                for p in rx.pat_cases(arm["pat"]):
+        for t in S.traversals():
+            if t["mode"] not in ("map", "mutate") or t["adaptors"]:
+                continue
+            o = S.origin(t["over"])
+            if o["v"] == "ifempty":
+                o = S.origin(o["els"])
+            if not (o["v"] == "parsed" and o["ir"]["t"] == "ref" and o["ir"]["fn"] == lexk):
+                continue
+            for cs in t["cases"]:
+                for p in rx.pat_cases(cs["pat"]) if cs["pat"] is not None else []:
                     pv = rx.pat_variant(p)
-                    if pv and pv[0] == "Token::Global":
-                        tail = rx.tail_expr(arm["body"]) if arm["body"]["k"] == "block" else arm["body"]
-                        if tail is not None and not find_all(tail, lambda n: n.get("k") == "path" and n["segs"][-1] == "Global"):
-                            mapped = True
+                    if pv and pv[0] == "Token::Global" and not cs.get("guard") and isinstance(cs["result"], dict) and not find_all(cs["result"], lambda n: n.get("k") == "path" and n["segs"][-1] == "Global"):
+                        ap = [e for e in S.events if e["e"] == "apply" and e["fn"] == entryk]
+                        mapped = len(ap) == 1 and ap[0]["arg"]["v"] == "list" and ap[0]["arg"]["from"] == t["id"] and not S.unknown
         entry = self.an.role("prec_entry")
         atom_only = all(s.startswith(self.f.fn(entry).module[0]) and "precedence" in s for s in sites)
         ok = mapped and atom_only
@@ -647,7 +694,7 @@ class Discharger:
 
 
 # ------------------------------------------------------------------ progress & termination
-def progress(c, facts, b, g):
+def progress(c, facts, b, g, mfacts):
     n = 0
     for fn in facts.nontest_fns():
         if fn.module[:1] != ("find_parser",):
@@ -679,16 +726,37 @@ def progress(c, facts, b, g):
                 c.ob("C03.progress", fn.key, "alt(())", False, "empty alt tuple: winnow asserts")
     c.floor("repetition sites", n, 10)
     loops, finite = [], []
+    n_for_e1 = 0
     for fn in facts.nontest_fns():
         for x in find_all(fn.body, lambda x: x.get("k") in ("loop", "while", "for")):
             if x["k"] == "for":
-                base, chain = rx.method_chain(x["iter"])
-                ms = [mm for mm, _, _ in chain]
-                # iteration over a finite, already materialised collection (string characters, slice/vec/map elements)
-                if ms and ms[0] in ("chars", "bytes", "char_indices", "iter", "into_iter", "iter_mut", "keys", "values", "lines", "split_whitespace") and not set(ms) & {"cycle", "repeat"} and not find_all(x["body"], lambda y: y.get("k") in ("loop", "while")):
-                    finite.append("%s: for over .%s()" % (fn.key, ms[0]))
-                    continue
+                n_for_e1 += 1
+                continue
             loops.append("%s:%s" % (fn.key, x["k"]))
+    # every `for` is decided on the resolved program: the type handed to IntoIterator::into_iter by the loop's desugaring
+    # must be a materialised collection or an order-preserving std adaptor stack over one
+    n_for_e2 = 0
+    _hr = []
+
+    def hand_reach():
+        if not _hr:
+            _hr.append(mfacts.reachable([q for q in mfacts.bodies if mir.e1_key(q, facts) is not None]))
+        return _hr[0]
+
+    for pth, bd in mfacts.bodies.items():
+        for cl in bd["calls"]:
+            if cl["callee"].endswith("IntoIterator::into_iter") and any("`for` loop" in mm for mm in cl.get("macros", [])):
+                n_for_e2 += 1
+                ty = cl["generics"][1:-1] if cl["generics"].startswith("[") and cl["generics"].endswith("]") else cl["generics"]
+                if finite_iterable(ty):
+                    finite.append("%s: for over %s" % (pth, short_ty(ty)))
+                elif re.match(r"^\w+/#\d+$", ty) and pth not in hand_reach():
+                    # iterator supplied by the caller of a generic (macro-generated) function that no hand-written body of the crate reaches
+                    finite.append("%s: for over a caller-supplied %s, unreachable from hand-written code" % (pth, ty))
+                else:
+                    loops.append("%s: for over %s (not a known finite iterable)" % (pth, ty[:100]))
+    if n_for_e2 < n_for_e1:
+        loops.append("%d `for` loops in the syntax tree but only %d in the resolved program: some loop was not analysed" % (n_for_e1, n_for_e2))
     c.ob("C03.termination", "crate", "no unbounded loops", not loops, "loop/while (or for over an unbounded iterator) in non-test code: %s" % loops if loops else "0 loop/while in non-test code; for-loops only over finite collections: %s; all other iteration is through winnow repetitions and iterator adaptors" % (finite or "none"))
 
 
